@@ -863,6 +863,8 @@ class RZILTransformer(Transformer):
 
     def mem_store(self, items):
         self.ext.set_token_meta_data("mem_store")
+        if len(items) != 5:
+            raise ValueError("mem_store takes exactly an address and a value.")
         va = items[3]
         data: Pure = items[4]
         operation_value_type = ValueType(items[1] == "s", items[2])
@@ -877,6 +879,8 @@ class RZILTransformer(Transformer):
     # SPECIFIC FOR: Hexagon
     def mem_load(self, items):
         self.ext.set_token_meta_data("mem_load")
+        if len(items) != 4:
+            raise ValueError("mem_load takes exactly one address.")
         vt = ValueType(items[1] == "s", items[2])
         mem_acc_type = MemAccessType(vt, True)
         va = items[3]
